@@ -487,3 +487,5 @@ MEAS = 'src/geom3/mesh/measurement.rs'
 M('C03', 'deviation-sign-from-raw-position', MEAS, "                } else if closest.normal.dot(&v) > 0.0 {", "                } else if closest.normal.dot(&point.coords) > 0.0 {", 'POSDOT')
 M('C03', 'plane-distance-drops-offset', 'src/geom3/plane3.rs', "        self.normal.dot(&point.coords) - self.d", "        self.normal.dot(&point.coords) - self.d.min(0.0)", 'POSDOT')
 M('C03', 'neutral-plane-distance-temp', 'src/geom3/plane3.rs', "        self.normal.dot(&point.coords) - self.d", "        let proj = self.normal.dot(&point.coords);\n        proj - self.d", '', kind='neutral')
+M('C07', 'to_wpr-neg-lock-sign', ROTF, "        let rx = -(m[(1, 0)].atan2(m[(1, 1)]));", "        let rx = m[(1, 0)].atan2(m[(1, 1)]);", 'to_wpr:branches')
+M('C07', 'point_point_jacobian-d-for-rd', 'src/geom3/align3/jacobian.rs', "        result.a = n.dot(&(params.rotations().rd.y * from_rc).coords);", "        result.a = n.dot(&(params.rotations().d.y * from_rc).coords);", 'point_point_jacobian:rows')
